@@ -84,6 +84,9 @@ def opnd(label, signed, width, is_bool=False):
 
 @rule("R10.1", "C10", "per-class typing lemma: each operator node's emitted term is well-sorted and has the sort its declared type announces", min_instances=40)
 def r10_1(ctx):
+    from .c09 import literal_rendering
+
+    literal_rendering(ctx)  # SN / UN carry the width of the literal's type
     idx = get_index(ctx.env)
     n = 0
 
@@ -315,6 +318,15 @@ def r10_4(ctx):
                     for x in o.value:
                         flags.add(tuple(sorted(x.fields["group"].members)))
             ctx.check(f"c11_cast[{'bool' if a_bool else ('s32' if sb else 'u32')}, {'bool' if b_bool else ('s32' if sb else 'u32')}] flags", flags == {("PURE",)}, "('PURE',) on both results", str(sorted(flags)), fn_where(idx, fi))
+    # the promoted type of a narrow operand is a plain integer type as well: a truth value (1 bit, BOOL) or a narrow integer that is
+    # promoted must come out without the BOOL flag (the flag decides ITE vs CAST and NON_ZERO vs raw read everywhere else)
+    fp = idx.func("promoted_type")
+    for desc, mk in (("1 bit BOOL", lambda: mk_vt("a", False, 1, ("PURE", "BOOL"))), ("8 bit BOOL", lambda: mk_vt("a", False, 8, ("PURE", "BOOL"))), ("8 bit BOOL|CONST", lambda: mk_vt("a", False, 8, ("PURE", "BOOL", "CONST"))),
+                     ("16 bit integer", lambda: mk_vt("a", True, 16, ("PURE",)))):
+        outs = Interp(idx).explore(lambda i, mk=mk: i.call_function(fp, [mk()]))
+        got = sorted({(tuple(sorted(o.value.fields["group"].members)), o.value.fields.get("_signed"), o.value.fields.get("_bit_width")) if o.kind == "return" and isinstance(o.value, AObj) else ("?",) for o in outs})
+        ok = bool(got) and all(len(g) == 3 and "BOOL" not in g[0] and g[1] is True and g[2] == 32 for g in got)
+        ctx.check(f"promoted_type[{desc}] is a plain signed 32 bit integer type", ok, "signed, 32 bit, no BOOL flag", str(got)[:120], fn_where(idx, fp))
     from .c03 import r03_2
 
     r03_2(ctx)
@@ -421,6 +433,9 @@ def hybrid_temp_type_checks(ctx):
 
 @rule("R10.8", "C10", "temporaries and registers keep their sort: h_tmpN carries sign, width and boolness of the operation's value; register operands get their architectural width", min_instances=45)
 def r10_8(ctx):
+    from .c08 import r08_3
+
+    r08_3(ctx)  # the value handed back by a call is read with sign and width of the declared return type (also 8 / 16 bit)
     idx = get_index(ctx.env)
     hybrid_temp_type_checks(ctx)
     # --- register operand widths (table shared with C07)
